@@ -189,9 +189,16 @@ func (ch validatorDeleteChange) dirtied() *common.Address {
 }
 
 func (ch validatorUpdateChange) revert(s *StateDB) {
+	// The statistics account for the record currently installed. Callers modify the new record in place after
+	// UpdateValidator (the forced status change of a delegation withdrawal), so ch.newVal may no longer be what
+	// was counted once a later entry has been reverted.
+	cur := ch.newVal
+	if v, ok := s.validatorObjects.Load(*ch.address); ok && v != nil {
+		cur = v.(*Validator)
+	}
 	s.setValidator(ch.oldVal)
-	if !ch.newVal.StakeEqual(ch.oldVal) {
-		s.decrValidatorsStat(ch.newVal)
+	if !cur.StakeEqual(ch.oldVal) {
+		s.decrValidatorsStat(cur)
 		s.incrValidatorsStat(ch.oldVal)
 	}
 }
